@@ -3,7 +3,8 @@
    Proof files: Sym.v (group table), SymRules1-4.v (Rules.v level), SymCode1-2.v (code-shaped TransformMove / Move). *)
 From Coq Require Import NArith ZArith List Lia Bool.
 Require Import Rules Sym SymRules1 SymRules2 SymRules3 SymRules4.
-Require Import Board Move GameOver Tps Symmetry Refine SymCode1 Canon2 SymCode2.
+Require Import Board Move GameOver Tps Symmetry Refine SymCode1 Canon2 SymCode2 SymCode3 SymCode4.
+Require Import Preserve1 Preserve6 GameOverFacts2.
 Import ListNotations.
 Close Scope Z_scope. Close Scope N_scope.
 
@@ -12,7 +13,7 @@ Theorem C14_group_closed : forall n a b, a < 8 -> b < 8 -> forall xy, sym n a (s
 Proof. exact comp_ok. Qed.
 Print Assumptions C14_group_closed.
 
-Theorem C14_group_inverse : forall n a, a < 8 -> forall xy, sym n (inv a) (sym n a xy) = xy.
+Theorem C14_group_inverse : forall n a, a < 8 -> forall xy, sym n (Sym.inv a) (sym n a xy) = xy.
 Proof. exact inv_ok. Qed.
 Print Assumptions C14_group_inverse.
 
@@ -50,7 +51,7 @@ Theorem C14_tm_comp : forall a b s m, a < 8 -> b < 8 -> tm a s (tm b s m) = tm (
 Proof. exact tm_comp. Qed.
 Print Assumptions C14_tm_comp.
 
-Theorem C14_img_inv : forall k b, k < 8 -> well_shaped b -> img (inv k) (img k b) = b.
+Theorem C14_img_inv : forall k b, k < 8 -> well_shaped b -> img (Sym.inv k) (img k b) = b.
 Proof. exact img_inv. Qed.
 Print Assumptions C14_img_inv.
 
@@ -95,8 +96,8 @@ Print Assumptions C14_transform_move_panics.
    of m succeeds/fails exactly as Move on p with m, the results correspond again, and nothing panics.
    PARTIAL with respect to DESIGN's statement: q is any position that shows the image, not yet Symmetry.image (the rebuild through
    from_squares: abs (image p s) = img k (abs p) is not proved here), and Pass (type code 1) is excluded as in C01.
-   gameover_invariant at the bit level (needs C02's has_road_iff) and symmetries_exact are not proved: they are covered by the
-   correspondence and the independent oracle. ---- *)
+   symmetries_exact (and abs (image p s) = img k (abs p), which also needs the reserves of p to be the default counts minus the pieces on
+   the board, because image rebuilds them through from_squares) is not proved: covered by the correspondence and the independent oracle. ---- *)
 Theorem C14_move_equivariant_partial : forall k p q m, k < 8 -> c01_inv p -> c01_inv q -> abs q = img k (abs p) -> transformable m -> mT m <> 1%N ->
   match transform_move (csym (N.to_nat (size p)) k) m with
   | Ok m' => match mv p m, mv q m' with
@@ -108,6 +109,29 @@ Theorem C14_move_equivariant_partial : forall k p q m, k < 8 -> c01_inv p -> c01
   end.
 Proof. exact move_equivariant_code. Qed.
 Print Assumptions C14_move_equivariant_partial.
+
+(* the same under C01's full invariant pos_ok with the EXACT limit fits64 (no stack of the rules successor above 64; the first version needs
+   every stack <= 64 - size); the invariant holds again on both sides *)
+Theorem C14_move_equivariant64_partial : forall k p q m, k < 8 -> pos_ok p -> pos_ok q -> abs q = img k (abs p) -> fits64 p m ->
+  transformable m -> mT m <> 1%N ->
+  match transform_move (csym (N.to_nat (size p)) k) m with
+  | Ok m' => match mv p m, mv q m' with
+             | Ok p', Ok q' => abs q' = img k (abs p') /\ pos_ok p' /\ pos_ok q'
+             | Err, Err => True
+             | _, _ => False
+             end
+  | _ => False
+  end.
+Proof. exact move_equivariant64_code. Qed.
+Print Assumptions C14_move_equivariant64_partial.
+
+(* ---- DESIGN 5.14 gameover_invariant, through C02 (game_over_correct): positions satisfying C02's invariant that show a board and its image
+   have the same GameOver verdict and the same WinDetails (over, reason, winner, both flat counts).  PARTIAL in the same respect as
+   move_equivariant: q is any position showing the image, not yet Symmetry.image. ---- *)
+Theorem C14_gameover_invariant_partial : forall k p q, k < 8 -> GameOverFacts2.inv p -> GameOverFacts2.inv q -> abs q = img k (abs p) ->
+  game_over q = game_over p /\ win_details q = win_details p.
+Proof. exact gameover_invariant. Qed.
+Print Assumptions C14_gameover_invariant_partial.
 
 (* non-vacuity: SymRules3.ex_equivariant (5x5, a two-high stack slides, k = 6), ex_equivariant_illegal, ex_road (3x3 road and its image),
    SymCode1.ex_transform. *)
